@@ -1,7 +1,12 @@
 package rules
 
 import (
+	"path/filepath"
+	"strings"
+
 	"gmcheck/core"
+
+	"golang.org/x/tools/go/ssa"
 )
 
 // PropDef binds a property to the rules that decide its structural clauses.
@@ -15,7 +20,77 @@ type PropDef struct {
 // Props is filled by init functions in prop_*.go.
 var Props = map[string]PropDef{}
 
-// RunFixtures analyses the control packages under /verif/fixtures.
+// RunFixtures analyses the control package under /verif/fixtures with the
+// generic rule engines: every construct named ...Bad must be reported and every
+// ...Good must not. A rule whose expected count on go-mc is zero is thereby
+// shown to be able to fire on every run.
 func RunFixtures(verif string, def PropDef) ([]core.Ob, error) {
-	return nil, nil
+	saved := core.ModPath
+	core.ModPath = "gmcfix"
+	defer func() { core.ModPath = saved }()
+	p, err := core.Load(core.LoadOpts{Dir: filepath.Join(verif, "fixtures"), MinPkgs: 1})
+	if err != nil {
+		return nil, err
+	}
+	c := NewCtx(p)
+	c.Verif = verif
+	all := func(*ssa.Function) bool { return true }
+	var got []core.Ob
+	got = append(got, c.TLGObs(all, all, false)...)
+	got = append(got, c.RawRead()...)
+	got = append(got, c.Discard()...)
+	got = append(got, c.lockPairingEverywhere(nil)...)
+	got = append(got, c.Pools("ctl")...)
+	got = append(got, c.ErrFlow(all, all)...)
+	got = append(got, c.FuncFieldCalls(all, all)...)
+	status := map[string][]core.Status{}
+	for _, o := range got {
+		fn := o.Func
+		if fn == "" {
+			fn = o.Key
+		}
+		i := strings.LastIndex(fn, ".")
+		name := fn[i+1:]
+		status[o.Rule+"|"+name] = append(status[o.Rule+"|"+name], o.Status)
+	}
+	expect := []struct{ rule, fn string }{
+		{"R-TLG", "TLG"}, {"R-TLG", "TLGResize"}, {"R-RAWREAD", "RawRead"}, {"R-DISCARD", "Discard"}, {"R-LOCK", "Pair"},
+		{"R-POOL", "Pool"}, {"R-ERRFLOW", "Err"}, {"R-PANIC", "Field"},
+	}
+	var obs []core.Ob
+	for _, e := range expect {
+		o := core.Ob{Rule: e.rule, Key: "control:" + e.fn, Armed: true, Status: core.OK, Pos: "fixtures/ctl/ctl.go",
+			Want: "positive control " + e.fn + "Bad is reported and negative control " + e.fn + "Good is not (the rule can fire and does not over-fire)"}
+		bad, good := status[e.rule+"|"+e.fn+"Bad"], status[e.rule+"|"+e.fn+"Good"]
+		anyViol := func(ss []core.Status) bool {
+			for _, s := range ss {
+				if s == core.Violated {
+					return true
+				}
+			}
+			return false
+		}
+		switch {
+		case len(bad) == 0 || !anyViol(bad):
+			o.Status, o.Got = core.Violated, "the violating control was NOT reported: the rule engine is broken"
+		case len(good) == 0:
+			o.Status, o.Got = core.Violated, "the conforming control produced no obligation: the rule does not see the construct"
+		case anyViol(good):
+			o.Status, o.Got = core.Violated, "the conforming control was reported: the rule over-fires"
+		}
+		obs = append(obs, o)
+	}
+	// the second R-ERRFLOW control (nil returned on the error edge)
+	o := core.Ob{Rule: "R-ERRFLOW", Key: "control:ErrEdge", Armed: true, Status: core.OK, Pos: "fixtures/ctl/ctl.go", Want: "a nil error returned on the err != nil edge is reported"}
+	found := false
+	for _, s := range status["R-ERRFLOW|ErrEdgeBad"] {
+		if s == core.Violated {
+			found = true
+		}
+	}
+	if !found {
+		o.Status, o.Got = core.Violated, "not reported"
+	}
+	obs = append(obs, o)
+	return obs, nil
 }
